@@ -171,17 +171,18 @@ func (server *SugarDB) handleCommand(ctx context.Context, message []byte, conn *
 		}
 	}
 
-	// If the command is a write command, wait for state copy to finish.
-	if internal.IsWriteCommand(command, subCommand) {
-		for {
-			if !server.stateCopyInProgress.Load() {
-				server.stateMutationInProgress.Store(true)
-				break
-			}
-		}
-	}
-
 	if !server.isInCluster() || !synchronize {
+		// Commands execute one at a time: the handler and the logging of its command are atomic
+		// with respect to every other command, and the log keeps the execution order.
+		server.commandLock.Lock()
+		defer server.commandLock.Unlock()
+
+		// If the command is a write command, wait for state copy to finish.
+		if internal.IsWriteCommand(command, subCommand) {
+			server.waitForStateCopy()
+			defer server.stateMutationInProgress.Store(false)
+		}
+
 		res, err := handler(server.getHandlerFuncParams(ctx, cmd, conn))
 		if err != nil {
 			return nil, err
@@ -192,9 +193,12 @@ func (server *SugarDB) handleCommand(ctx context.Context, message []byte, conn *
 			server.aofEngine.LogCommand(ctx.Value("Database").(int), message)
 		}
 
-		server.stateMutationInProgress.Store(false)
-
 		return res, err
+	}
+
+	// If the command is a write command, wait for state copy to finish.
+	if internal.IsWriteCommand(command, subCommand) {
+		server.waitForStateCopy()
 	}
 
 	// Handle other commands that need to be synced across the cluster
@@ -214,6 +218,16 @@ func (server *SugarDB) handleCommand(ctx context.Context, message []byte, conn *
 	}
 
 	return nil, errors.New("not cluster leader, cannot carry out command")
+}
+
+// waitForStateCopy blocks until no state copy is in progress, then flags a state mutation.
+func (server *SugarDB) waitForStateCopy() {
+	for {
+		if !server.stateCopyInProgress.Load() {
+			server.stateMutationInProgress.Store(true)
+			break
+		}
+	}
 }
 
 func (server *SugarDB) getCommands() []internal.Command {
